@@ -278,6 +278,13 @@ fn wide_bases() -> Vec<Base> {
         }
     }
     out.push(Base { repr: 1, order: 6, arcs: vec![(0, 9, 1), (9, 3, 1), (5, 12, 1)], extra_ids: vec![9, 12], drop_ids: vec![1] });
+    // rows with exactly 255 / 256 / 257 out-neighbours (inline-buffer sized rows)
+    for repr in 0..2_u8 {
+        for n in [256_usize, 257, 258] {
+            let arcs = (1..n).flat_map(|i| [(0, i, 1), (i, 0, 1)]).collect();
+            out.push(Base { repr, order: n, arcs, extra_ids: vec![], drop_ids: vec![] });
+        }
+    }
     out
 }
 
@@ -329,6 +336,26 @@ pub fn sweep_case(mut idx: u64) -> Option<(Program, usize)> {
     }
     idx -= s.len() as u64;
     cpu_segment().into_iter().nth(idx as usize)
+}
+
+/// Cases for the Miri leg: the part of the sweep where undefined behaviour
+/// could hide from AddressSanitizer (in-allocation overreads, pointer
+/// arithmetic without dereference, data races): every unsafe-reaching call
+/// whose vertex arguments leave V or whose base is non-contiguous, and the
+/// CPU-count segment.
+pub fn miri_cases_len() -> u64 {
+    sweep_size()
+}
+
+pub fn miri_case(idx: u64) -> Option<Case> {
+    let (program, cpus) = sweep_case(idx)?;
+    let vs = base_vertices(&program.base);
+    let noncontig = vs.iter().copied().ne(0..vs.len());
+    let outside = program.calls.iter().any(|c| vertex_args(c).iter().any(|v| !vs.contains(v)));
+    let interesting = program.calls.iter().any(reaches_unsafe) && (outside || noncontig || cpus > 0);
+    // huge orders make Miri crawl; the overflow cases are covered natively
+    let heavy = program.calls.iter().any(|c| matches!(c, Call::MatrixBig(..)) || matches!(c, Call::FromArcs(_, a) if a.iter().any(|&(u, v)| u > 64 || v > 64)));
+    (interesting && !heavy).then_some(Case { program, leak: false, cpus: 0 })
 }
 
 // ---------------------------------------------------------------------------
